@@ -14,6 +14,9 @@ RULE = ("internal keys (random valid x-only keys) x script lists with n = 1..12 
         "independent BIP341/342 digest, and the round trip sign -> --sig -> debugger session (witness order sig, args..., script, control). "
         "non-trivial = n >= 2; distinct = distinct (key, scripts, index, prefix)")
 
+# leaves that use the tapscript-only opcode OP_CHECKSIGADD (0xba), the highest defined opcode
+CSA_POOL = [bytes([0x20]) + bytes([7]) * 32 + b"\xac" + bytes([0x20]) + bytes([9]) * 32 + b"\xba\x51\x87", b"\x00" + bytes([0x20]) + bytes([5]) * 32 + b"\xba"]
+
 def tagged(tag, m):
     t = hashlib.sha256(tag.encode()).digest(); return hashlib.sha256(t + t + m).digest()
 
@@ -53,7 +56,7 @@ def main(tier):
     maxn = 12 if tier == "quick" else 64
     for n in range(1, maxn + 1):
         sk = rng.randrange(1, R.N); key = R.pubkey_xonly(sk)[0]
-        scripts = [rng.choice(SCRIPT_POOL) if rng.random() < 0.5 else bytes([0x51 + rng.randrange(16)]) + bytes([0x51 + rng.randrange(16)]) + b"\x87" for _ in range(n)]
+        scripts = [rng.choice(SCRIPT_POOL + CSA_POOL) if rng.random() < 0.5 else bytes([0x51 + rng.randrange(16)]) + bytes([0x51 + rng.randrange(16)]) + b"\x87" for _ in range(n)]
         if n >= 2 and rng.random() < 0.5:
             scripts[1] = scripts[0]
         hrp = rng.choice(["bcrt", "bcrt", "tb", "bc"])
